@@ -142,8 +142,9 @@ class NetworkXGraphStorageDisjoint:
         def del_graph(self, graph_id: str) -> None:
             self.lock.acquire()
             try:
-                if len(self.graphs[graph_id].nodes) > 0:
-                    self.graphs[graph_id].clear()
+                # forget the graph entirely, so that the same id can be imported again
+                self.graphs.pop(graph_id, None)
+                self.graph_node_ids.pop(graph_id, None)
             except Exception as e:
                 raise e
             finally:
